@@ -24,7 +24,8 @@ RULE = (
     "PYTHONHASHSEED) = real `python -m generator` sub-process, plant_stale (a file matching the plugin's ownership "
     "pattern, or an overwritten generated file), rerun; invariant after every run: {relative path -> sha256} of the "
     "plugin-owned files equals the reference for that (plugin, model list), computed once in a fresh directory, in "
-    "another process, under a different hash seed. Model pool: committed model, Hypothesis-evolved models, a two-file "
+    "another process, under a different hash seed; plus one in-process history per plugin (the plugin entry point called "
+    "repeatedly inside one process, the same model before and after other models). Model pool: committed model, Hypothesis-evolved models, a two-file "
     "list (base + extension), reduced closed sub-models for the slow plugins. non-trivial history = a run after a "
     "different model, after plant_stale, or under a hash seed different from the reference's; distinct = the history"
 )
@@ -114,7 +115,14 @@ class Pool:
             {"method": "vf/extra", "messageDirection": "both", "typeName": "VfExtraNotification", "params": {"kind": "reference", "name": "VfExtraParams"}}],
             "structures": [{"name": "VfExtraParams", "properties": [{"name": "extraValue", "type": {"kind": "base", "name": "string"}}]}],
             "enumerations": [], "typeAliases": []}
-        docs: Dict[str, dict] = {"small_a": small_a, "small_b": small_b, "ext": ext, "small_mx": small_mx}
+        # same declarations as small_a, but the enumerations' openness differs (a different model for C16's purposes)
+        small_a_open = copy.deepcopy(small_a)
+        for e in small_a_open["enumerations"]:
+            if e.get("supportsCustomValues"):
+                e.pop("supportsCustomValues")
+            else:
+                e["supportsCustomValues"] = True
+        docs: Dict[str, dict] = {"small_a": small_a, "small_b": small_b, "ext": ext, "small_mx": small_mx, "small_a_open": small_a_open}
         if not (quick and plugin in ("dotnet", "testdata")):
             docs["evo1"] = evolved[-1][0]
             if plugin != "testdata":
@@ -128,7 +136,7 @@ class Pool:
         P = lambda n: os.path.join(self.dir, n + ".json")
         self.lists: Dict[str, List[str]] = {
             "small_a": [P("small_a")], "small_b": [P("small_b")], "small_a+ext": [P("small_a"), P("ext")],
-            "small_mx": [P("small_mx")],
+            "small_mx": [P("small_mx")], "small_a_open": [P("small_a_open")],
         }
         slow = plugin in ("dotnet", "testdata")
         if not (quick and slow):
@@ -251,6 +259,31 @@ def make_machine(plugin: str, pool: Pool, ctx: Ctx, stats: collections.Counter, 
     return GenMachine
 
 
+def child_inprocess(plugin: str, lists: Dict[str, List[str]], order: List[str]) -> dict:
+    """several generations inside ONE process (the plugin entry point called exactly as __main__ does), each into a
+    fresh directory; returns the digest map of every run."""
+    import importlib
+    import logging
+    from ..subject import setup_sys_path
+    setup_sys_path()
+    from generator import model as gmodel
+    mod = importlib.import_module(f"generator.plugins.{plugin}")
+    logging.disable(logging.CRITICAL)
+    out = []
+    for key in order:
+        d = gen.scratch(f"lspverif-c16-inproc-{plugin}-")
+        try:
+            docs = [json.load(open(p_)) for p_ in lists[key]]
+            spec = gmodel.create_lsp_model(docs)
+            mod.generate(spec, d, os.path.join(d, "_tests"))
+            out.append([key, owned_digest(plugin, d)])
+        except Exception as e:
+            out.append([key, {"<plugin failed>": f"{type(e).__name__}: {e}"[:200]}])
+        finally:
+            shutil.rmtree(d, ignore_errors=True)
+    return {"runs": out}
+
+
 def _work(args) -> dict:
     plugin, shard, seed, quick = args
     ctx = Ctx("C16", "quick", seed)
@@ -291,6 +324,24 @@ def _work(args) -> dict:
                 stats["scripted_histories"] += 1
             finally:
                 mach.teardown()
+        if shard == 1:
+            # in-process history: the same model generated before and after other models within one process
+            from .c19 import in_child
+            order = ["small_a", "small_a_open", "small_a", "small_mx", "small_b", "small_a", "small_mx"]
+            res = in_child(child_inprocess, plugin, pool.lists, order, timeout=900)
+            if res is not None:
+                mref = M()
+                try:
+                    for i, (key, dig) in enumerate(res["runs"]):
+                        _, ref = mref.reference(key)
+                        stats["inprocess_runs"] += 1
+                        if dig != ref and "<plugin failed>" not in ref:
+                            differ = sorted(k for k in set(dig) | set(ref) if dig.get(k) != ref.get(k))
+                            ctx.finding(("inprocess-output-differs", plugin, f"run {i + 1} of {len(order)}"),
+                                        f"generating {key} as run {i + 1} of the in-process history {order[: i + 1]} differs from a fresh process: {differ[:3]}",
+                                        {"plugin": plugin, "history": order[: i + 1]})
+                finally:
+                    mref.teardown()
         run_state_machine_as_test(
             hypothesis.seed(derive_seed(seed, "C16", plugin, shard))(M),
             settings=settings(max_examples=examples, stateful_step_count=steps, database=None, deadline=None,
